@@ -314,7 +314,32 @@ def base_type(t):
     return t.split("::")[-1].strip()
 
 
-def auto_stub_text(res):
+def reverse_typemap(unit):
+    """opaque stand-in type -> the crate type it stands for (from the unit's `//@typemap Rc<T> => TRc` lines, includes expanded)"""
+    rev = {}
+    def scan(path, depth=0):
+        try:
+            for line in open(path):
+                t = line.strip()
+                if t.startswith("//@include ") and depth < 8:
+                    scan(os.path.join(os.path.dirname(path), t.split(None, 1)[1].strip()), depth + 1)
+                m = re.match(r"//@typemap\s+(.+?)\s*=>\s*(\w+)\s*$", t)
+                if m:
+                    src = m.group(1)
+                    while True:
+                        m2 = re.fullmatch(r"(?:Rc|Box|Arc)\s*<\s*(.+)\s*>", src)
+                        if not m2:
+                            break
+                        src = m2.group(1)
+                    if re.fullmatch(r"\w+", src):
+                        rev.setdefault(m.group(2), src)
+        except OSError:
+            pass
+    scan(os.path.join(ROOT, "units", unit + ".vrs"))
+    return rev
+
+
+def auto_stub_text(res, unit=None):
     """From rustc's 'no method named X found for T' diagnostics, build contract-free stubs whose signatures are copied
     from the crate (DESIGN 2.1 'stub closure'): a function under contract that starts calling something new is then
     verified against a callee about which nothing is assumed, instead of being undecided."""
@@ -326,12 +351,13 @@ def auto_stub_text(res):
         m = MISSING_METHOD.search(msg)
         if m:
             name, ty = m.group(1), base_type(m.group(2))
-            rc, o, e = sh([VX, "locate", "--repo", REPO, "--type", ty, "--fn", name])
+            src_ty = (reverse_typemap(unit) if unit else {}).get(ty, ty)
+            rc, o, e = sh([VX, "locate", "--repo", REPO, "--type", src_ty, "--fn", name])
             hits = [l.split("\t") for l in o.splitlines() if l.strip()]
             hits = [h for h in hits if h[1] == "-"] or hits
             if len(hits) >= 1 and (ty, name) not in seen:
                 seen.add((ty, name))
-                pieces.append(f"impl {ty} {{\n    #[verifier::external_body]\n    //@fn {hits[0][0]} {ty}::{name} sigonly\n    //@end\n}}")
+                pieces.append(f"impl {ty} {{\n    #[verifier::external_body]\n    //@fn {hits[0][0]} {src_ty}::{name} sigonly\n    //@end\n}}")
             continue
         m = MISSING_FN.search(msg)
         if m:
@@ -399,7 +425,7 @@ def run_unit_inner(unit, tier, seed):
     auto_pieces = []
     rounds = 0
     while not res["timeout"] and rounds < 4:
-        pieces = [p for p in auto_stub_text(res) if p not in auto_pieces]
+        pieces = [p for p in auto_stub_text(res, unit) if p not in auto_pieces]
         if not pieces:
             break
         auto_pieces += pieces
